@@ -599,6 +599,7 @@ func c20depsWithEffects(fn *ssa.Function, v ssa.Value) map[ssa.Value]bool {
 // ---------------------------------------------------------------------------
 
 func checkC20(c *Check) {
+	lockBalanceRule(c, "C20", pRealm)
 	p := c.P
 	x := &c20ctx{c: c, p: p, la: p.Locks(), aggs: map[string]*c20agg{}, stunFns: map[*ssa.Function]int{}, verified: map[string]bool{}, punchSite: map[*ssa.Call]bool{}, stunSite: map[*ssa.Call]bool{}, originMemo: map[string]*c20orig{}}
 	defer x.flush()
